@@ -94,6 +94,42 @@ func init() {
 			return vand(binop(token.LEQ, types.Typ[types.Uint8], args[1], args[0]), binop(token.LEQ, types.Typ[types.Uint8], args[0], args[2]))
 		},
 		vpkg + "StrEq": func(fr *frame, args []value) value { return strEq(args[0], args[1]) },
+		vpkg + "Setenv": func(fr *frame, args []value) value {
+			k, ok := args[0].(string)
+			if !ok {
+				unsupported("Setenv with symbolic name")
+			}
+			if cur.env == nil {
+				cur.env = map[string]value{}
+			}
+			cur.env[k] = args[1]
+			return nil
+		},
+		vpkg + "Unsetenv": func(fr *frame, args []value) value {
+			delete(cur.env, args[0].(string))
+			return nil
+		},
+		"os.LookupEnv": func(fr *frame, args []value) value {
+			k, ok := args[0].(string)
+			if !ok {
+				unsupported("os.LookupEnv with symbolic name")
+			}
+			if cur != nil {
+				if v, ok := cur.env[k]; ok {
+					return tuple{v, true}
+				}
+			}
+			return tuple{"", false}
+		},
+		"os.Getenv": func(fr *frame, args []value) value {
+			k, _ := args[0].(string)
+			if cur != nil {
+				if v, ok := cur.env[k]; ok {
+					return v
+				}
+			}
+			return ""
+		},
 		vpkg + "Assume": func(fr *frame, args []value) value { cur.assume(args[0]); return nil },
 		vpkg + "Assert": func(fr *frame, args []value) value {
 			cur.assertCond(args[0], argStr(args[1]), "", nil)
